@@ -19,6 +19,8 @@ VOCAB = [
     '2 * 3', 'a * b * c', 'x　_　y', '5 * 6 *', '* x *', 'http://x.y/z', 'www.x.y', 'a.b@c.d',
     # delimiter runs next to punctuation: flanking (6.2) decides, and two closers (or two openers) never pair
     '(_', '_)', '(*', '*)', '"_', '_"', '(__', '__)', '._', '_.', 'x_)', '(_x', '*,', ',*', '_,', '!_', 'x*)', '(*x', '**.', '.**', '_;', '-_', '_-',
+    # single tildes that cannot pair (GFM strikethrough needs an opener before a closer)
+    '~ 5', '~7', '~x', 'x ~', '~,',
     # 6.2: what merely looks like a character reference
     '&notit;', '&copyfoo;', '&ampere;', '&ltx;', '&nosuch;', '&#99999999;', '&#xFFFFFFF;', '&Amp;', '&#;', '&#x;', '&amp', '&#35',
     # digits that are not ASCII digits never form a list marker (5.2)
